@@ -220,3 +220,12 @@ for _pid, (_thm, _what) in _TIES.items():
 for _pid in ('C08', 'C19', 'C20'):
     CLAIMS[_pid]['text'] += (' The run also executes TestOverlap: the same client\'s requests while a stale-while-revalidate background validation is in flight '
                              '(forced validation replacing the entry; another variant stored, then an invalidation; another variant served stale).')
+
+_EFF = (' Cxx_source_effects: the effect trees this property is stated about (every store / origin / clock operation of %s, in source order, under the source\'s conditions, '
+        'and what every path returns) are re-derived from /repo by translate/effects.go before every build and proved equal (up to ProgEq.peq, which run respects) to the hand-written model\'s.')
+_EFFN = {'C01': 'handleCacheHit', 'C02': 'handleCacheHit and HandleValidationResponse', 'C03': 'RoundTrip', 'C04': 'RoundTrip', 'C06': 'handleCacheMiss, HandleValidationResponse and handleUnrecognizedMethod',
+         'C07': 'handleUnrecognizedMethod and HandleValidationResponse', 'C08': 'HandleValidationResponse and backgroundRevalidate', 'C09': 'RoundTrip and handleCacheHit',
+         'C10': 'all six transport functions', 'C11': 'handleCacheHit and HandleValidationResponse', 'C13': 'HandleValidationResponse', 'C16': 'all six transport functions',
+         'C18': 'RoundTrip, handleCacheMiss and handleCacheHit', 'C19': 'RoundTrip, HandleValidationResponse and backgroundRevalidate', 'C20': 'handleCacheHit and backgroundRevalidate'}
+for _pid, _w in _EFFN.items():
+    CLAIMS[_pid]['text'] += _EFF.replace('Cxx', _pid) % _w
